@@ -92,6 +92,8 @@ Record LifeC (P : gmap Z proposal) (S : gmap Z dstate) (pend : list proposal) (o
     (lc nid ivl : Z) : Prop := {
   (* a live deal that was never updated is pending, unless the cron has already passed its start *)
   lf_pend : forall id p, P !! id = Some p -> never_updated (S !! id) -> ~ In p pend -> p_start p <= lc;
+  (* a live deal that was never activated is pending, always *)
+  lf_unact : forall id p, P !! id = Some p -> S !! id = None -> In p pend;
   (* a deal is only ever updated strictly after its start epoch *)
   lf_upd : forall id p ds, P !! id = Some p -> S !! id = Some ds -> ds_lu ds <> UNDEF -> p_start p < ds_lu ds;
   (* no two live deals have the same proposal (CID) *)
@@ -124,19 +126,25 @@ Lemma lifec_lev epoch lc P S pend ops nid ivl P' S' pend' :
   LifeC P S pend ops lc nid ivl -> lev epoch lc P S pend P' S' pend' ->
   LifeC P' S' pend' ops lc nid ivl.
 Proof.
-  intros [Hp Hu Hq Ho Hn Hi] Hev.
+  intros [Hp Ha Hu Hq Ho Hn Hi] Hev.
+  assert (Hkeep : forall id p k q, P !! id = Some p -> P !! k = Some q -> k <> id -> In q pend ->
+                                   In q (pend_del pend p)).
+  { intros id p k q H1 H2 Hne Hin. apply pend_del_In. split; [|exact Hin].
+    intros ->. apply Hne. eapply Hq; eauto. }
   destruct Hev as [-> -> ->|id p ds HP HS Hlu Hst -> -> ->|id p HP -> HS Hpe|id p ds sl HP HS Hst Hep -> -> Hpe].
   - constructor; auto.
   - constructor; auto.
-    intros k q Hk Hnu Hnin. destruct (Z.eq_dec k id) as [->|Hne].
-    + assert (q = p) as -> by congruence. exact Hst.
-    + apply (Hp k q Hk Hnu). intros Hin. apply Hnin. apply pend_del_In. split; [|exact Hin].
-      intros ->. assert (k = id) by (eapply Hq; eauto). congruence.
+    + intros k q Hk Hnu Hnin. destruct (Z.eq_dec k id) as [->|Hne].
+      * assert (q = p) as -> by congruence. exact Hst.
+      * apply (Hp k q Hk Hnu). intros Hin. apply Hnin. eapply Hkeep; eauto.
+    + intros k q Hk Hs. destruct (Z.eq_dec k id) as [->|Hne]; [congruence|]. eapply Hkeep; eauto.
   - constructor; auto.
     + intros k q Hk Hnu Hnin. apply lookup_delete_Some in Hk as [Hne Hk].
       rewrite (HS k ltac:(congruence)) in Hnu. apply (Hp k q Hk Hnu). intros Hin. apply Hnin.
-      destruct Hpe as [->| ->]; [exact Hin|]. apply pend_del_In. split; [|exact Hin].
-      intros ->. assert (k = id) by (eapply Hq; eauto). congruence.
+      destruct Hpe as [->| ->]; [exact Hin|]. eapply Hkeep; eauto.
+    + intros k q Hk Hs. apply lookup_delete_Some in Hk as [Hne Hk].
+      rewrite (HS k ltac:(congruence)) in Hs. pose proof (Ha k q Hk Hs) as Hin.
+      destruct Hpe as [->| ->]; [exact Hin|]. eapply Hkeep; eauto.
     + intros k q ds Hk Hs Hlu. apply lookup_delete_Some in Hk as [Hne Hk].
       rewrite (HS k ltac:(congruence)) in Hs. eauto.
     + intros k1 k2 q H1 H2. apply lookup_delete_Some in H1 as [_ H1]. apply lookup_delete_Some in H2 as [_ H2]. eauto.
@@ -145,8 +153,11 @@ Proof.
     + intros k q Hk Hnu Hnin. destruct (Z.eq_dec k id) as [->|Hne].
       * rewrite lookup_insert in Hnu. cbn in Hnu. congruence.
       * rewrite lookup_insert_ne in Hnu by congruence. apply (Hp k q Hk Hnu). intros Hin. apply Hnin.
-        destruct Hpe as [->| ->]; [exact Hin|]. apply pend_del_In. split; [|exact Hin].
-        intros ->. assert (k = id) by (eapply Hq; eauto). congruence.
+        destruct Hpe as [->| ->]; [exact Hin|]. eapply Hkeep; eauto.
+    + intros k q Hk Hs. destruct (Z.eq_dec k id) as [->|Hne].
+      * rewrite lookup_insert in Hs. discriminate.
+      * rewrite lookup_insert_ne in Hs by congruence. pose proof (Ha k q Hk Hs) as Hin.
+        destruct Hpe as [->| ->]; [exact Hin|]. eapply Hkeep; eauto.
     + intros k q d Hk Hs Hlu. destruct (Z.eq_dec k id) as [->|Hne].
       * rewrite lookup_insert in Hs. injection Hs as <-. cbn. assert (q = p) as -> by congruence. exact Hst.
       * rewrite lookup_insert_ne in Hs by congruence. eauto.
@@ -520,12 +531,15 @@ Proof.
   - unfold Life.
     cbn [proposals states pending deal_ops last_cron next_id interval set_deal_ops set_proposals set_pending set_next_id].
     rewrite f_prop, f_states, f_next, f_ops, f_cron, f_ivl, A8.
-    destruct Hl as [Hp Hu Hq Ho Hn Hi].
+    destruct Hl as [Hp Ha Hu Hq Ho Hn Hi].
     constructor; auto.
     + intros k q Hk Hnu Hnin. destruct (Z.eq_dec k (next_id st)) as [->|Hne].
       * rewrite lookup_insert in Hk. injection Hk as <-. exfalso. apply Hnin. apply pend_put_In. now left.
       * rewrite lookup_insert_ne in Hk by congruence. apply (Hp k q Hk Hnu).
         intros Hin. apply Hnin. apply pend_put_In. now right.
+    + intros k q Hk Hsk. apply pend_put_In. destruct (Z.eq_dec k (next_id st)) as [->|Hne].
+      * rewrite lookup_insert in Hk. injection Hk as <-. now left.
+      * rewrite lookup_insert_ne in Hk by congruence. right. eauto.
     + intros k q ds Hk Hsk Hlu. destruct (Z.eq_dec k (next_id st)) as [->|Hne]; [congruence|].
       rewrite lookup_insert_ne in Hk by congruence. eauto.
     + intros k1 k2 q H1 H2.
@@ -618,7 +632,7 @@ Lemma fresh_life st epoch l st' :
   deal_ops st' = deal_ops st -> last_cron st' = last_cron st -> next_id st' = next_id st ->
   interval st' = interval st -> Life st'.
 Proof.
-  unfold Life. intros [Hp Hu Hq Ho Hn Hi] Hf -> -> -> -> -> -> ->.
+  unfold Life. intros [Hp Ha Hu Hq Ho Hn Hi] Hf -> -> -> -> -> -> ->.
   assert (Hv := put_fresh_view l (states st)).
   assert (Hl : Forall (fun x => ds_lu (snd x) = UNDEF /\
              (states st !! fst x = None \/ exists d0, states st !! fst x = Some d0 /\ ds_lu d0 = UNDEF)) l).
@@ -626,6 +640,13 @@ Proof.
   specialize (Hv Hl).
   constructor; auto.
   - intros k q Hk Hnu Hnin. apply (Hp k q Hk); [|exact Hnin]. exact (proj1 (Hv k) Hnu).
+  - intros k q Hk Hs. apply (Ha k q Hk).
+    destruct (states st !! k) as [d0|] eqn:Hd0; [|reflexivity]. exfalso.
+    assert (Hgen : forall l S, S !! k <> None -> put_deal_states S l !! k <> None).
+    { clear. induction l as [|[i e] l IHl]; intros S HSn; cbn; [exact HSn|]. apply IHl.
+      destruct (Z.eq_dec i k) as [->|Hne]; [rewrite lookup_insert; discriminate|].
+      now rewrite lookup_insert_ne by congruence. }
+    apply (Hgen l (states st)); congruence.
   - intros k q ds Hk Hs Hlu. apply (Hu k q ds Hk); [|exact Hlu]. exact (proj2 (Hv k) ds Hs Hlu).
 Qed.
 
@@ -726,7 +747,7 @@ Proof.
   unfold cron_tick. destruct (negb (caller =? CRON_ACTOR_ID)); [exact Hl|].
   destruct (cron_loop epoch st (mkCracc 0 [] []) (flat_map snd (due st epoch))) as [st1 a|] eqn:Hlp; [|exact Hl].
   assert (L0 : LifeL epoch st (states st)).
-  { destruct Hl as [Hp Hu Hq Ho Hnn Hi]. constructor; auto.
+  { destruct Hl as [Hp Ha Hu Hq Ho Hnn Hi]. constructor; auto.
     intros id p H1 H2 H3. pose proof (Hp id p H1 H2 H3). lia. }
   assert (Hdue : forall id p, In id (flat_map snd (due st epoch)) -> proposals st !! id = Some p ->
                               p_start p <= epoch).
@@ -742,7 +763,7 @@ Proof.
                              (fold_left (fun m '(e, _) => delete e m) (due st epoch) (deal_ops st1)) ->
             Life st3).
   { intros st3 E1 E2 E3 E4 E5 E6 E7. unfold Life. rewrite E1, E2, E3, E4, E5, E6, E7.
-    destruct L1 as [Hp Hu Hq Ho Hnn Hi]. constructor; auto.
+    destruct L1 as [Hp Ha Hu Hq Ho Hnn Hi]. constructor; auto.
     - intros e ids id p H Hin Hpp.
       destruct (fold_ops_put_lookup _ _ _ _ H id Hin) as [(ids0 & H0 & Hin0)|Hnew].
       + apply fold_delete_lookup in H0. eauto.
@@ -779,6 +800,7 @@ Qed.
 Lemma life_init ivl : 0 < ivl -> Life (init ivl).
 Proof.
   intros H. unfold Life, init. cbn. constructor; auto.
+  - intros id p Hp. rewrite lookup_empty in Hp. discriminate.
   - intros id p Hp. rewrite lookup_empty in Hp. discriminate.
   - intros id p ds Hp. rewrite lookup_empty in Hp. discriminate.
   - intros k1 k2 p Hp. rewrite lookup_empty in Hp. discriminate.
@@ -820,6 +842,10 @@ Theorem published_once_until_start now st e id p :
   MarketInv now st -> Life st -> now <= e -> last_cron st < e ->
   proposals st !! id = Some p -> e <= p_start p -> In p (pending st).
 Proof. intros I Hl Hn Hlc Hp He. eapply pending_complete; eauto. Qed.
+
+Theorem unactivated_is_pending st id p :
+  Life st -> proposals st !! id = Some p -> states st !! id = None -> In p (pending st).
+Proof. intros Hl. exact (lf_unact _ _ _ _ _ _ _ Hl id p). Qed.
 
 Theorem pending_unique st id1 id2 p :
   Life st -> proposals st !! id1 = Some p -> proposals st !! id2 = Some p -> id1 = id2.
@@ -1204,7 +1230,7 @@ Proof.
   - apply Hsame. unfold cron_tick. destruct (negb _); [reflexivity|].
     destruct (cron_loop epoch st _ _) as [st1 a|] eqn:Hlp; [|reflexivity].
     assert (L0 : LifeL epoch st (states st)).
-    { destruct Hl as [Hp Hu Hq Ho Hnn Hi]. constructor; auto.
+    { destruct Hl as [Hp Ha Hu Hq Ho Hnn Hi]. constructor; auto.
       intros id p H1 H2 H3. pose proof (Hp id p H1 H2 H3). unfold life_op in Hlc. cbn in Hlc. lia. }
     assert (Hdue : forall id p, In id (flat_map snd (due st epoch)) -> proposals st !! id = Some p ->
                                 p_start p <= epoch).
